@@ -127,9 +127,16 @@ func (k *KittyImage) CellSize() (w int, h int) {
 // upscaled, nor will it's aspect ratio be changed. Resizing will be done in a
 // separate goroutine. A [Redraw] event will be posted when complete
 func (k *KittyImage) Resize(w int, h int) {
+	if k.vx.winSize.Cols <= 0 || k.vx.winSize.Rows <= 0 {
+		return
+	}
 	// Resize the image
 	cellPixW := k.vx.winSize.XPixel / k.vx.winSize.Cols
 	cellPixH := k.vx.winSize.YPixel / k.vx.winSize.Rows
+	if cellPixW <= 0 || cellPixH <= 0 {
+		// the terminal has not reported a pixel size
+		return
+	}
 	img := resizeImage(k.img, w, h, cellPixW, cellPixH)
 
 	// Reupload the image
@@ -243,9 +250,16 @@ func (s *Sixel) Resize(w int, h int) {
 	atomicStore(&s.encoding, true)
 	go func() {
 		defer atomicStore(&s.encoding, false)
+		if s.vx.winSize.Cols <= 0 || s.vx.winSize.Rows <= 0 {
+			return
+		}
 		// Resize the image
 		cellPixW := s.vx.winSize.XPixel / s.vx.winSize.Cols
 		cellPixH := s.vx.winSize.YPixel / s.vx.winSize.Rows
+		if cellPixW <= 0 || cellPixH <= 0 {
+			// the terminal has not reported a pixel size
+			return
+		}
 		img := resizeImage(s.img, w, h, cellPixW, cellPixH)
 		max := img.Bounds().Max
 		s.w = max.X / cellPixW
